@@ -424,6 +424,9 @@ _NEUTRAL_BASES = {
     "neutral-r21": ["C15", "C16", "C18", "C19"],
     "neutral-r22": ["C05", "C06", "C13", "C15"],
     "neutral-r23": ["C07", "C12", "C14", "C17", "C20"],
+    "neutral-r27": ["C13", "C14"],
+    "neutral-r28": ["C05", "C15", "C16", "C17"],
+    "neutral-r29": ["C14", "C17", "C20"],
 }
 for _b, _ps in _NEUTRAL_BASES.items():
     for _p, _m in refactor(_b, _ps).items():
@@ -586,5 +589,14 @@ _CROSS5 = {
                                   [(PARSER, "[ticker(t), total_value(tv), tax(tx)..] => {\n                (t, Operation::Dividend {\n                    total_value: tv,\n                    tax_paid: or_zero_gbp(tx),",
                                     "[ticker(t), total_value(tv), tax(tx)] => {\n                (t, Operation::Dividend {\n                    total_value: tv,\n                    tax_paid: or_zero_gbp(std::iter::once(tx)),")], ["R1:cmd_dividend"]))],
 }
-for _p, _ms in list(_CROSS.items()) + list(_CROSS2.items()) + list(_CROSS3.items()) + list(_CROSS4.items()) + list(_CROSS5.items()) + list(_CROSS6.items()) + list(_CROSS7.items()):
+_CROSS8 = {
+    "C14": [on("neutral-r27", mut("r27+sell-price-fees-swapped", "carrier-struct reader puts the FEES amount into price and the price into fees",
+                                  [(PARSER, "            Operation::Sell {\n                amount,\n                price,\n                fees,\n            }",
+                                    "            Operation::Sell {\n                amount,\n                price: fees,\n                fees: price,\n            }")], ["R1:"]))],
+    "C15": [on("neutral-r28", mut("r28+derived-path-flag-false", "helper returns the single-file default path with is_default = false",
+                                  [(MAIN, "        (None, [single]) => (single.with_extension(\"pdf\"), true),", "        (None, [single]) => (single.with_extension(\"pdf\"), false),")], ["R4:"]))],
+    "C20": [on("neutral-r29", mut("r29+query-matches-date-only", "delegating lookup predicate compares the date only",
+                                  [(SERVER, "        disposal.date == self.date && self.same_ticker(disposal)", "        disposal.date == self.date")], ["R5:"]))],
+}
+for _p, _ms in list(_CROSS8.items()) + list(_CROSS.items()) + list(_CROSS2.items()) + list(_CROSS3.items()) + list(_CROSS4.items()) + list(_CROSS5.items()) + list(_CROSS6.items()) + list(_CROSS7.items()):
     MUTANTS.setdefault(_p, []).extend(_ms)
